@@ -161,6 +161,7 @@ namespace kit
     long seed = 0;
     double deadline = 0;      // absolute time
     bool replay = false;
+    bool in_child = false;    // this process was exec'd to run one case of a fresh_process suite
   };
   inline Globals &G() { static Globals g; return g; }
 
@@ -210,6 +211,7 @@ namespace kit
       fprintf(stderr, "kit: counter '%s' not registered\n", name.c_str());
       _exit(3);
     }
+    bool child = false;   // records go to stdout, to be re-ingested by the parent worker
     void eval(uint64_t n = 1) { w->evaluations = w->evaluations + n; }
     void nontrivial() { case_nontrivial = true; }
     void count(int id, uint64_t n = 1) { w->counters[id] = w->counters[id] + n; }
@@ -217,6 +219,7 @@ namespace kit
     // detail: JSON object text with the materialised case
     void violation(const std::string &signature, const std::string &detail_json)
     {
+      if (child) { printf("V\t%s\t%s\n", signature.c_str(), detail_json.c_str()); return; }
       if (G().replay) { replay_violations.emplace_back(signature, detail_json); return; }
       ++nviol;
       // cap per signature (not in total), so that a flood of one finding can never hide another one
@@ -227,6 +230,7 @@ namespace kit
     }
     void sample(const std::string &json)
     {
+      if (child) { printf("S\t%s\n", json.c_str()); return; }
       if (G().replay || ++nsamples > 2) return;
       fprintf(out, "{\"k\":\"sample\",\"suite\":%s,\"idx\":%llu,\"case\":%s}\n", jstr(suite).c_str(),
               static_cast<unsigned long long>(idx), json.c_str());
@@ -235,6 +239,7 @@ namespace kit
     // distinct-key reporting (e.g. canonical states); merged into a set by the driver
     void key(const std::string &space, uint64_t h)
     {
+      if (child) { printf("K\t%s\t%016llx\n", space.c_str(), static_cast<unsigned long long>(h)); return; }
       if (G().replay) return;
       fprintf(out, "{\"k\":\"key\",\"space\":%s,\"h\":\"%016llx\"}\n", jstr(space).c_str(), static_cast<unsigned long long>(h));
     }
@@ -247,6 +252,7 @@ namespace kit
     std::function<void(uint64_t, Ctx &)> run;
     std::string bound;          // human-readable statement of the alphabet and bound
     int watchdog_s = 120;
+    bool fresh_process = false; // run every case in a freshly exec'd process (process-level statics start pristine)
   };
 
   struct Spec
@@ -257,6 +263,8 @@ namespace kit
     std::vector<std::string> assumptions;
     std::vector<std::string> counters;   // names of extra counters
     double quick_deadline_s = 240, thorough_deadline_s = 1500;
+    // run once, in a freshly exec'd process, before any worker starts (e.g. to write reference answers to the run directory)
+    std::function<void(const std::string &tier)> prepare;
     // called by the driver after merging; may add coverage keys (raw JSON members)
     std::function<void(const std::map<std::string,uint64_t> &counters, const std::map<std::string,size_t> &keyspaces, JObj &coverage)> finalize;
   };
@@ -301,13 +309,69 @@ namespace kit
 
   inline void install_sanitizer_env() {}
 
-  // Runs one case in this process (used by workers and by replay)
+  // Runs `--child-case suite idx` in a freshly exec'd copy of this binary and returns its raw record output.
+  inline std::string exec_child_case(const std::string &suite, uint64_t idx, int *status = nullptr)
+  {
+    int pfd[2];
+    if (pipe(pfd) != 0) { perror("pipe"); _exit(3); }
+    fflush(stdout);
+    const pid_t p = fork();
+    if (p == 0)
+      {
+        close(pfd[0]);
+        dup2(pfd[1], 1);
+        close(pfd[1]);
+        const std::string sid = std::to_string(G().shard_id), sidx = std::to_string(idx);
+        execl(G().self.c_str(), G().self.c_str(), "--child-case", suite.c_str(), sidx.c_str(), "--tier", G().tier.c_str(), "--shard-id", sid.c_str(), static_cast<char *>(nullptr));
+        _exit(127);
+      }
+    close(pfd[1]);
+    std::string got;
+    char buf[65536];
+    ssize_t n;
+    while ((n = read(pfd[0], buf, sizeof buf)) > 0) got.append(buf, static_cast<size_t>(n));
+    close(pfd[0]);
+    int st = 0;
+    waitpid(p, &st, 0);
+    if (status) *status = st;
+    return got;
+  }
+
+  // Runs one case (used by workers, replay and the inline debugging mode). Suites marked fresh_process are
+  // executed in a freshly exec'd copy of this binary whose records are re-ingested here.
   inline void run_one(const Suite &s, uint64_t idx, Ctx &ctx)
   {
     ctx.suite = s.name;
     ctx.idx = idx;
     ctx.case_nontrivial = false;
-    s.run(idx, ctx);
+    if (!s.fresh_process || G().in_child) { s.run(idx, ctx); return; }
+    int st = 0;
+    const std::string got = exec_child_case(s.name, idx, &st);
+    std::stringstream gs(got);
+    std::string line;
+    bool complete = false;
+    while (std::getline(gs, line))
+      {
+        if (line.size() < 2 || line[1] != '\t') continue;
+        const std::string rest = line.substr(2);
+        const size_t t = rest.find('\t');
+        if (line[0] == 'V' && t != std::string::npos) ctx.violation(rest.substr(0, t), rest.substr(t+1));
+        else if (line[0] == 'K' && t != std::string::npos) ctx.key(rest.substr(0, t), strtoull(rest.substr(t+1).c_str(), nullptr, 16));
+        else if (line[0] == 'S') ctx.sample(rest);
+        else if (line[0] == 'C')
+          {
+            std::stringstream cs(rest);
+            unsigned long long ev = 0; int nt = 0;
+            cs >> ev >> nt;
+            ctx.eval(ev);
+            if (nt) ctx.nontrivial();
+            unsigned long long v; int id = 0;
+            while (cs >> v) { if (id < MAXC) ctx.count(id, v); ++id; }
+            complete = true;
+          }
+      }
+    if (WIFSIGNALED(st)) ctx.violation("crash/" + s.name + "/signal" + std::to_string(WTERMSIG(st)), JObj().str("how", "child process of a fresh_process case died").done());
+    else if (!complete) ctx.violation("harness/child-incomplete/" + s.name, JObj().integer("exit", WIFEXITED(st) ? WEXITSTATUS(st) : -1).str("output_tail", got.size() > 600 ? got.substr(got.size()-600) : got).done());
   }
 
   inline int worker(const std::vector<Suite> &suites, Shared *sh, int id, uint64_t total)
@@ -435,7 +499,8 @@ namespace kit
     g.self = argv[0];
     std::string replay_file;
     std::string only_suite;
-    long long inline_case = -1;
+    long long inline_case = -1, child_case = -1;
+    bool prepare_mode = false;
     for (int i = 1; i < argc; ++i)
       {
         const std::string a = argv[i];
@@ -445,6 +510,9 @@ namespace kit
         else if (a == "--suite" && i+1 < argc) only_suite = argv[++i];
         else if (a == "--deadline" && i+1 < argc) { /* handled below */ ++i; }
         else if (a == "--run-case" && i+2 < argc) { only_suite = argv[++i]; inline_case = atoll(argv[++i]); }
+        else if (a == "--child-case" && i+2 < argc) { only_suite = argv[++i]; child_case = atoll(argv[++i]); }
+        else if (a == "--shard-id" && i+1 < argc) g.shard_id = atoi(argv[++i]);
+        else if (a == "--prepare") prepare_mode = true;
         else { fprintf(stderr, "usage: %s [--tier quick|thorough] [--shards n] [--replay file] [--suite name] [--deadline s]\n", argv[0]); return 2; }
       }
     if (const char *s = getenv("VERIF_SEED")) g.seed = atol(s);
@@ -453,19 +521,63 @@ namespace kit
     g.shards = std::max(1, std::min(g.shards, 64));
     const double t0 = now();
     g.deadline = t0 + deadline_s;
-    g.rundir = "/verif/build/run/" + spec.property + (replay_file.empty() ? "" : "_replay" + std::to_string(getpid()));
-    (void)!system(("rm -rf " + g.rundir + " && mkdir -p " + g.rundir).c_str());
-    Ctx::counter_names() = spec.counters;
-    if (static_cast<int>(spec.counters.size()) > MAXC) { fprintf(stderr, "too many counters\n"); return 2; }
-
     if (!replay_file.empty())
       {
-        // tier recorded in the replay file wins
+        // the tier recorded in the replay file wins
         std::ifstream f(replay_file);
         std::stringstream ss; ss << f.rdbuf();
         rapidjson::Document d;
         d.Parse(ss.str().c_str());
         if (!d.HasParseError() && d.IsObject() && d.HasMember("tier")) g.tier = d["tier"].GetString();
+      }
+    if (const char *rd = getenv("KIT_RUNDIR")) g.rundir = rd;     // child / prepare processes share the parent's run directory
+    else
+      {
+        g.rundir = "/verif/build/run/" + spec.property + (replay_file.empty() ? "" : "_replay" + std::to_string(getpid()));
+        (void)!system(("rm -rf " + g.rundir + " && mkdir -p " + g.rundir).c_str());
+        setenv("KIT_RUNDIR", g.rundir.c_str(), 1);
+      }
+    Ctx::counter_names() = spec.counters;
+    if (prepare_mode)
+      {
+        g.deadline = now() + 3600;
+        if (spec.prepare) spec.prepare(g.tier);
+        return 0;
+      }
+    if (child_case >= 0)
+      {
+        g.in_child = true;
+        g.deadline = now() + 3600;
+        std::vector<Suite> cs = make(g.tier);
+        for (auto &s : cs)
+          if (s.name == only_suite)
+            {
+              Shared::W w{};
+              Ctx ctx;
+              ctx.w = &w;
+              ctx.child = true;
+              alarm(static_cast<unsigned>(s.watchdog_s));
+              try { run_one(s, static_cast<uint64_t>(child_case), ctx); }
+              catch (const std::exception &e) { ctx.violation("harness/uncaught-exception/" + s.name, JObj().str("what", e.what()).done()); }
+              printf("C\t%llu %d", static_cast<unsigned long long>(w.evaluations), ctx.case_nontrivial ? 1 : 0);
+              for (size_t c = 0; c < spec.counters.size(); ++c) printf(" %llu", static_cast<unsigned long long>(w.counters[c]));
+              printf("\n");
+              fflush(stdout);
+              _exit(0);
+            }
+        return 2;
+      }
+    if (spec.prepare && getenv("KIT_PREPARED") == nullptr)
+      {
+        fflush(stdout);
+        const int rc = system((g.self + " --prepare --tier " + g.tier).c_str());
+        if (rc != 0) { printf("HARNESS-ERROR property=%s prepare step failed (rc=%d)\n", spec.property.c_str(), rc); return 3; }
+        setenv("KIT_PREPARED", "1", 1);
+      }
+    if (static_cast<int>(spec.counters.size()) > MAXC) { fprintf(stderr, "too many counters\n"); return 2; }
+
+    if (!replay_file.empty())
+      {
         std::vector<Suite> suites = make(g.tier);
         g.deadline = now() + 3600;
         const int rc = replay_main(spec, suites, replay_file);
@@ -659,7 +771,7 @@ namespace kit
         else if (reported < 12)
           {
             // replay before report: fresh process, this single case only
-            const std::string cmd = g.self + " --replay " + rfile + " > " + g.rundir + "/replay.out 2>&1";
+            const std::string cmd = "env -u KIT_RUNDIR -u KIT_PREPARED " + g.self + " --replay " + rfile + " > " + g.rundir + "/replay.out 2>&1";
             const int rc = system(cmd.c_str());
             reproduced = WIFEXITED(rc) && WEXITSTATUS(rc) == 1;
           }
